@@ -14,15 +14,34 @@ from ..core import g_bool, g_list, g_nat, g_opt, g_pair
 from ..driver import Prop
 
 
-def open_fds(prefix):
-    """Descriptors of this process that refer to a file under prefix."""
-    out = []
+BASELINE = set()
+
+
+def all_fds():
+    out = {}
     for fd in os.listdir("/proc/self/fd"):
         try:
-            p = os.readlink(f"/proc/self/fd/{fd}")
+            out[fd] = os.readlink(f"/proc/self/fd/{fd}")
         except OSError:
             continue
-        if p.startswith(prefix):
+    return out
+
+
+def mark_baseline():
+    """Remember what is open before a case starts (interpreter, harness)."""
+    BASELINE.clear()
+    BASELINE.update(all_fds().items())
+
+
+def open_fds(prefix):
+    """Regular files this process has opened since the baseline: files under prefix, and any other file
+    (e.g. a temporary file a library keeps for the workbook being written)."""
+    out = []
+    for fd, p in all_fds().items():
+        if (fd, p) in BASELINE:
+            continue
+        if p.startswith(prefix) or (p.startswith("/") and not p.startswith(("/dev/", "/proc/", "/sys/"))
+                                    and "/proc/self/fd" not in p and not p.endswith((".py", ".pyc", ".so"))):
             out.append(p)
     return sorted(out)
 
@@ -49,7 +68,7 @@ class C19(Prop):
 
     def generate(self, rng, tier):
         cases = []
-        readers = ["csv_path", "csv_stream", "xlsx_path", "xlsx_bytes", "load_files"]
+        readers = ["csv_path", "csv_stream", "xlsx_path", "xlsx_bytes", "load_files", "load_root_only"]
         # a workbook loaded through load_files whose include directive holds a number instead of a text: the
         # error comes out of the include handling, not out of a table
         for n in (1, 2, 4):
@@ -66,6 +85,8 @@ class C19(Prop):
                 for n in (1, 2, 4):
                     for f in [None] + list(range(n)):
                         cases.append({"writer": writer, "target": target, "n": n, "fault": f})
+                        if writer == "xlsx" and f is not None:
+                            cases.append({"writer": writer, "target": target, "n": n, "fault": f, "bad": "ctrl"})
         return cases
 
     # ---- readers ----
@@ -86,7 +107,7 @@ class C19(Prop):
             wb.save(path)
             wb.close()
             return path
-        if rd.startswith("csv") or rd == "load_files":
+        if rd.startswith("csv") or rd in ("load_files", "load_root_only"):
             path = os.path.join(d, "data.csv")
             with open(path, "w") as f:
                 f.write("".join(table_csv(i, bad=(fault == i)) for i in range(n)))
@@ -110,8 +131,11 @@ class C19(Prop):
         d = os.path.realpath(tempfile.mkdtemp(prefix="pdv_c19_"))
         obs = {"events": []}
         stream = None
+        gc.collect()
+        gc.disable()       # "as soon as": nothing may have to wait for the cycle collector
         try:
             path = self._make_source(case, d)
+            mark_baseline()
             rd = case["reader"]
             with warnings.catch_warnings():
                 warnings.simplefilter("ignore")
@@ -127,6 +151,8 @@ class C19(Prop):
                     gen = read_excel(stream)
                 elif rd == "load_xlsx_badinclude":
                     gen = load_files([path])
+                elif rd == "load_root_only":
+                    gen = load_files(root_folder=d, csv_sep=";")      # roots omitted: the root folder is the only root item
                 else:
                     gen = load_files([path], csv_sep=";")
                 own = lambda: len([p for p in open_fds(d)]) - (1 if stream is not None and not stream.closed else 0)
@@ -165,6 +191,7 @@ class C19(Prop):
                             obs["events"].append(["next", own(), "stop"])
                             break
                 gen = None
+                obs["final_before_gc"] = own()
                 gc.collect()
                 obs["final"] = own()
                 if stream is not None:
@@ -172,6 +199,7 @@ class C19(Prop):
         except Exception as e:
             obs["harness_exc"] = f"{type(e).__name__}: {e}"[:200]
         finally:
+            gc.enable()
             if stream is not None and not stream.closed:
                 stream.close()
             shutil.rmtree(d, ignore_errors=True)
@@ -189,17 +217,22 @@ class C19(Prop):
             def __str__(self):
                 raise RuntimeError("cannot serialise")
 
+        bad_cell = Boom() if case.get("bad", "boom") == "boom" else "x\x0by"     # a character a workbook cannot hold
+
         def tables():
             for i in range(case["n"]):
                 if case["fault"] == i:
                     t = Table(pd.DataFrame({"c": ["a"]}), name=f"t{i}", units=["text"])
-                    t.df["c"] = pd.Series([Boom()], dtype=object)
+                    t.df["c"] = pd.Series([bad_cell], dtype=object)
                     yield t
                 else:
                     yield Table(pd.DataFrame({"c": [float(i)]}), name=f"t{i}", units=["-"])
 
         path = os.path.join(d, "out." + case["writer"])
         stream = None
+        gc.collect()
+        gc.disable()
+        mark_baseline()
         try:
             with warnings.catch_warnings():
                 warnings.simplefilter("ignore")
@@ -221,6 +254,7 @@ class C19(Prop):
                 if stream is not None:
                     obs["caller_stream_closed"] = stream.closed
         finally:
+            gc.enable()
             if stream is not None and not stream.closed:
                 stream.close()
             shutil.rmtree(d, ignore_errors=True)
@@ -243,7 +277,7 @@ class C19(Prop):
             if obs.get("caller_stream_closed"):
                 fails.append("caller-stream: the writer closed the caller's stream")
             return fails
-        owns = case["reader"] in ("csv_path", "xlsx_path", "load_files", "load_xlsx_badinclude")
+        owns = case["reader"] in ("csv_path", "xlsx_path", "load_files", "load_xlsx_badinclude", "load_root_only")
         if obs["before_first_next"] != 0:
             fails.append("early-open: a file is open before the first block is requested")
         for kind, n, how in obs["events"]:
@@ -254,6 +288,9 @@ class C19(Prop):
                 fails.append(f"leak-{kind}-{how.split(':')[0]}: {n} descriptor(s) still open after {kind} ({how}) on {case['reader']}")
         if obs.get("after_exception_released", 0) != 0:
             fails.append("leak-after-error: descriptor open after the error was released")
+        if obs.get("final_before_gc", 0) != 0:
+            fails.append(f"leak-final: {obs['final_before_gc']} descriptor(s) open at the end until the cycle collector runs "
+                         f"({case['reader']}, {case['mode']})")
         if obs.get("final", 0) != 0:
             fails.append(f"leak-final: {obs['final']} descriptor(s) open at the end ({case['reader']}, {case['mode']})")
         if obs.get("caller_stream_closed"):
@@ -265,7 +302,7 @@ class C19(Prop):
     def to_coq(self, case, obs):
         if "writer" in case or "harness_exc" in obs:
             return None
-        owns = case["reader"] in ("csv_path", "xlsx_path", "load_files", "load_xlsx_badinclude")
+        owns = case["reader"] in ("csv_path", "xlsx_path", "load_files", "load_xlsx_badinclude", "load_root_only")
         evs = []
         for kind, n, how in obs["events"]:
             evs.append(g_pair({"next": "GNext", "close": "GClose", "drop": "GDrop"}[kind], g_nat(n)))
